@@ -9,3 +9,4 @@ import JivaVerif.Properties.C06
 import JivaVerif.Properties.C10
 import JivaVerif.Properties.C11
 import JivaVerif.Properties.C16
+import JivaVerif.Properties.Controller
